@@ -144,13 +144,22 @@ def transpose(arr, perm=None):
 
 
 def elementwise(op, a, b, scalar_op):
-    """a op b element-wise; scalar_op(op, x, y) combines two element values"""
+    """a op b element-wise with numpy / xtensor broadcasting (trailing axes aligned, length-1 axes
+    stretched); scalar_op(op, x, y) combines two element values"""
     if is_arr(a) and is_arr(b):
-        if tuple(a.shape) != tuple(b.shape):
-            raise ShapeMismatch("ndsym: shapes %r and %r do not match" % (a.shape, b.shape))
-        out = NDArr(a.shape, None, "expr")
-        for i in a.indices():
-            out.data[i] = scalar_op(op, a.get(i), b.get(i))
+        sa, sb = tuple(a.shape), tuple(b.shape)
+        nd = max(len(sa), len(sb))
+        pa, pb = (1,) * (nd - len(sa)) + sa, (1,) * (nd - len(sb)) + sb
+        shape = []
+        for x, y in zip(pa, pb):
+            if x != y and x != 1 and y != 1:
+                raise ShapeMismatch("ndsym: shapes %r and %r do not match" % (sa, sb))
+            shape.append(max(x, y))
+        out = NDArr(shape, None, "expr")
+        for i in out.indices():
+            ia = tuple(0 if pa[k] == 1 else i[k] for k in range(nd))[nd - len(sa):]
+            ib = tuple(0 if pb[k] == 1 else i[k] for k in range(nd))[nd - len(sb):]
+            out.data[i] = scalar_op(op, a.get(ia), b.get(ib))
         return out
     if is_arr(a):
         out = NDArr(a.shape, None, "expr")
@@ -163,6 +172,31 @@ def elementwise(op, a, b, scalar_op):
             out.data[i] = scalar_op(op, a, b.get(i))
         return out
     return scalar_op(op, a, b)
+
+
+def sum_axis(arr, axis, scalar_op):
+    """xt::sum(arr, axis)"""
+    nd = len(arr.shape)
+    if not isinstance(axis, int) or axis < 0 or axis >= nd:
+        raise AnalysisBroken("ndsym: sum over axis %r of a %d-d array" % (axis, nd))
+    shape = [n for k, n in enumerate(arr.shape) if k != axis]
+    out = NDArr(shape, None, "sum")
+    for i in out.indices():
+        acc = None
+        for j in range(arr.shape[axis]):
+            v = arr.get(i[:axis] + (j,) + i[axis:])
+            acc = v if acc is None else scalar_op("+", acc, v)
+        out.data[i] = acc if acc is not None else 0
+    return out
+
+
+def flatten(arr):
+    """row-major flattening (a copy: only read by the modelled code)"""
+    vals = [arr.get(i) for i in arr.indices()]
+    out = NDArr((len(vals),), None, "flat")
+    for k, v in enumerate(vals):
+        out.data[(k,)] = v
+    return out
 
 
 def assign(dst, src):
